@@ -323,6 +323,13 @@ impl<'r> Gen<'r> {
                 groups[1].items[0][0] = MOp::W(s.k_lit32, sg);
             }
         }
+        if g.name == "Extension" && self.rng.chance(1, 2) {
+            // a registered extension name (code that special-cases particular extensions keys on these)
+            let names = crate::snapshot::extension_names();
+            let n = names[self.rng.usize_below(names.len())].clone();
+            ops[0] = MOp::S(n.clone());
+            groups[0].items[0][0] = MOp::S(n);
+        }
         self.last_groups = groups;
         let inst = MInst { opcode, rtype, rid, ops };
         self.note(&inst);
